@@ -79,6 +79,12 @@ impl<'a> LexiconSet<'a> {
     pub fn is_full(&self) -> bool {
         self.lexicons.len() >= MAX_DICTIONARIES
     }
+
+    /// Number of parts of speech defined by the system dictionary itself
+    /// (POS registered by plugins or merged from user dictionaries are not counted)
+    pub(crate) fn num_system_pos(&self) -> usize {
+        self.num_system_pos
+    }
 }
 
 impl LexiconSet<'_> {
